@@ -1,0 +1,18 @@
+//go:build verif
+
+package limits
+
+import "github.com/foxcpp/maddy/internal/limits/limiters"
+
+// VerifHookNew installs hook on the bucket sets of all configured keyed scopes
+// (see limiters.VerifHookNew); lockFree tells whether the constructor runs
+// outside the set-wide mutex. Build tag verif only.
+func (g *Group) VerifHookNew(hook func(scope string, lockFree bool)) {
+	for name, bs := range map[string]*limiters.BucketSet{"ip": g.ip, "source": g.source, "dest": g.dest} {
+		if bs == nil {
+			continue
+		}
+		name := name
+		bs.VerifHookNew(func(b *limiters.BucketSet) { hook(name, b.VerifLockFree()) })
+	}
+}
